@@ -10,7 +10,7 @@ from ..hyp import drive, run_explicit
 from .. import estimators as E, gen
 
 RULE = ('EXHAUSTIVE: every (estimator, non-deprecated constructor parameter) x value kind {unique sentinel object, '
-        'ndarray, callable, int, float, str} (only documented values where the constructor validates eagerly) - '
+        'ndarray (float64, int, bool, float32), list, tuple, callable, int, float, bool, str, None} (only documented values where the constructor validates eagerly) - '
         'construction, set_params, clone; every deprecated alias; every method of every unfitted estimator; pickle '
         'round trip of every fitted estimator with no / array / callable preprocessor. GENERATED: Hypothesis sequences '
         'of set_params / clone / pickle / fit on top, with a dict model of the parameters, and for numeric hyper-'
@@ -22,7 +22,7 @@ EXHAUSTIVE = True
 DESC0 = dict(d=3, sizes=[6, 6], seed=5, logscale=0, cond=1, sep=1.0, labels='range', grid=False)
 DEPRECATED = {'num_constraints': 'n_constraints', 'num_chunks': 'n_chunks', 'convergence_threshold': 'tol', 'k': 'n_neighbors'}
 EAGER = {('LFDA', 'embedding_type'): ['weighted', 'orthonormalized', 'plain']}
-KINDS = ['sentinel', 'ndarray', 'callable', 'int', 'float', 'str']
+KINDS = ['sentinel', 'ndarray', 'intarray', 'boolarray', 'f32array', 'list', 'tuple', 'callable', 'int', 'float', 'bool', 'str', 'none']
 
 
 def some_function(x):
@@ -55,6 +55,20 @@ def value_of(kind, salt=0):
     return object()
   if kind == 'ndarray':
     return np.arange(6.0).reshape(2, 3) + salt
+  if kind == 'intarray':
+    return np.arange(6).reshape(2, 3) + salt
+  if kind == 'boolarray':
+    return np.eye(3, dtype=bool)
+  if kind == 'f32array':
+    return (np.arange(9.0).reshape(3, 3) + salt).astype(np.float32)
+  if kind == 'list':
+    return [1, 2.5, 'x', salt]
+  if kind == 'tuple':
+    return (1, 2, salt)
+  if kind == 'bool':
+    return True
+  if kind == 'none':
+    return None
   if kind == 'callable':
     return some_function
   if kind == 'int':
